@@ -33,6 +33,15 @@
         omit=skesig:s       TLS <= 1.2 server sends ServerKeyExchange WITHOUT the signature (params only), hashed as sent
         preset=emptycert    TLS 1.3 client is told it sent an empty Certificate (tls13SentEmptyCertificate) although it sends a real one:
                             the honest encoder then skips CertificateVerify by itself (no wrapper involved)
+        resumption offers to a server (see props/C04.py: the requirement "client authentication" must survive them):
+        ticket=1            server loads session-ticket keys, client asks for ticket resumption
+        offer=fakeid        the client offers a made-up 32-byte session id (+ made-up master secret) the server has never seen
+        pre=auth|noauth     a complete earlier handshake on the same library state WITH / WITHOUT client authentication; the client
+                            then offers what it kept from it (session id, ticket, TLS 1.3 ticket PSK) in the main handshake
+        between=expire|restart|corrupt|foreignkey   what happens between the two: the clock passes every lifetime | the server's
+                            session cache is lost (matrixSslClose/Open) | the kept id/ticket/PSK identity is altered | the main server
+                            holds another ticket key
+        result gains:  pre=<c done>,<s done>,<server validator calls>,<client signatures>  res=<server: resumed (<=1.2) / PSK used (1.3)>
         drop=<dir>:<k> (the k-th record, 0-based, sent in direction c2s|s2c is removed from the wire)
         result:  new=<rc> c=<done>,<err>,<hs>,<cbcalls>:<last alert>,<anon> s=... val=<c calls>:<s calls> sign=<c>:<s>
                  v=<verdict the client's validator gave>;<server's>   verdict = rc/authStatus:authFailFlags/... leaf first
@@ -41,6 +50,20 @@
 */
 #include "sess.h"
 #include "testkeys/EC/384_EC_CA.h"
+#include <stdarg.h>
+
+/* the library itself writes diagnostics to stdout ("Ticket decryption failed", assertions): every result line of this harness is
+   assembled in a buffer and emitted at once with the prefix "@ "; props/C04.py keeps only those lines */
+static char g_out[16384]; static size_t g_outl;
+static int out_printf(const char *fmt, ...)
+{
+    va_list ap; va_start(ap, fmt);
+    int n = vsnprintf(g_out + g_outl, sizeof g_out - g_outl, fmt, ap);
+    va_end(ap);
+    if (n > 0) { g_outl += (size_t) n; if (g_outl >= sizeof g_out) g_outl = sizeof g_out - 1; }
+    return n;
+}
+#define printf out_printf
 
 /* ---------------------------------------------------------------- callbacks */
 typedef struct { int mode, arg, calls, last; } acb_t;
@@ -268,6 +291,7 @@ typedef struct {
     psCipher16_t suites[8]; int nsuites;
     uint16_t sigalgs[16]; int nsigalgs; uint16_t ssigalgs[16]; int nssigalgs;
     const char *name; uint64_t seed;
+    int keep, ticket, tkey, fakeid;
 } acfg_t;
 
 static int load_keys(sslKeys_t *k, int key, int with_id, int ca, int chain)
@@ -297,9 +321,11 @@ static int auth_new(acfg_t *c)
     memset(&g_c, 0, sizeof g_c); memset(&g_s, 0, sizeof g_s); g_s.is_server = 1;
     memset(g_ilog, 0, sizeof g_ilog);
     if (g_skeys_persist) { matrixSslDeleteKeys(g_skeys_persist); g_skeys_persist = NULL; }
-    if (g_saved_sid) { matrixSslDeleteSessionId(g_saved_sid); g_saved_sid = NULL; }
-    matrixSslClose(); if (matrixSslOpen() < 0) return -9;
-    g_vtime = 1592222400;
+    if (!c->keep) {
+        if (g_saved_sid) { matrixSslDeleteSessionId(g_saved_sid); g_saved_sid = NULL; }
+        matrixSslClose(); if (matrixSslOpen() < 0) return -9;
+        g_vtime = 1592222400;
+    }
     q_init(&g_c2s); q_init(&g_s2c);
     ent_seed(c->seed);
     g_pin_year = 2020;                        /* credentials are loaded while they are valid */
@@ -308,6 +334,11 @@ static int auth_new(acfg_t *c)
     v[0] = c->ver == 13 ? v_tls_1_3 : (c->ver == 11 ? v_tls_1_1 : v_tls_1_2);
     if (matrixSslNewKeys(&g_s.keys, NULL) < 0) return -1;
     if ((rc = load_keys(g_s.keys, c->key, 1, c->cauth ? c->sca : 0, c->schain)) < 0) return rc - 1000;
+    if (c->ticket) {
+        static const unsigned char tn[2][16] = { "verif-ticketkey", "other-ticketkey" }; unsigned char sk[32], hk[32];
+        memset(sk, c->tkey ? 0x3c : 0x5a, 32); memset(hk, c->tkey ? 0xc3 : 0xa5, 32);
+        if (matrixSslLoadSessionTicketKeys(g_s.keys, tn[c->tkey ? 1 : 0], sk, 32, hk, 32) < 0) return -1500;
+    }
     if (matrixSslNewKeys(&g_c.keys, NULL) < 0) return -2;
     if (!c->ckeys_none && (rc = load_keys(g_c.keys, c->key, c->cid, c->cca, 0)) < 0) return rc - 2000;
     memset(&so, 0, sizeof so);
@@ -323,7 +354,15 @@ static int auth_new(acfg_t *c)
     if (c->nsigalgs && (rc = matrixSslSessOptsSetSigAlgs(&so, c->sigalgs, (psSize_t) c->nsigalgs)) < 0) return rc - 5500;
     if (c->depth) so.validateCertsOpts.max_verify_depth = c->depth;
     if (c->has_vopts) { so.validateCertsOpts.flags = c->vflags; so.validateCertsOpts.mFlags = (uint32_t) c->vmflags; so.validateCertsOpts.nameType = c->vnametype; }
-    matrixSslNewSessionId(&g_saved_sid, NULL); g_c.sid = g_saved_sid;
+    if (c->ticket) so.ticketResumption = 1;
+    if (!(c->keep && g_saved_sid)) matrixSslNewSessionId(&g_saved_sid, NULL);
+    g_c.sid = g_saved_sid;
+    if (c->fakeid) {                           /* what a client could have kept from a connection this server never had */
+        g_saved_sid->idLen = SSL_MAX_SESSION_ID_SIZE;
+        for (int i = 0; i < SSL_MAX_SESSION_ID_SIZE; i++) g_saved_sid->id[i] = (unsigned char) (0xA0 + i);
+        memset(g_saved_sid->masterSecret, 0x5A, SSL_HS_MASTER_SIZE);
+        g_saved_sid->cipherId = c->nsuites ? c->suites[0] : 0xc02f;
+    }
     rc = matrixSslNewClientSession(&g_c.ssl, g_c.keys, g_c.sid, c->nsuites ? c->suites : NULL, (uint8_t) c->nsuites,
                                    g_acb[0].mode ? acb_client : NULL, c->name, NULL, NULL, &so);
     if (rc != MATRIXSSL_REQUEST_SEND) return rc - 6000;
@@ -386,7 +425,7 @@ static void parse_suites(acfg_t *c, char *v) { while (*v && c->nsuites < 8) { c-
 static void do_live(char **a, int n)
 {
     acfg_t c; memset(&c, 0, sizeof c); c.ver = 12; c.cca = 1; c.sca = 1; c.seed = 1; c.cid = -1;
-    int dropdir = -1, dropk = 0; uint16_t rw[16]; int nrw = 0; int preset_empty = 0;
+    int dropdir = -1, dropk = 0; uint16_t rw[16]; int nrw = 0; int preset_empty = 0; int pre = 0, between = 0; char prebuf[64] = "";
     memset(&g_omit, 0, sizeof g_omit);
     memset(&g_pop, 0, sizeof g_pop); g_kt_mode = 0; g_sub.active = 0; memset(g_acb, 0, sizeof g_acb); g_force_hash = 0; g_forced = 0;
     for (int i = 0; i < n; i++) {
@@ -415,6 +454,10 @@ static void do_live(char **a, int n)
         else if (!strcmp(a[i], "ssigalgs")) { while (*v && c.nssigalgs < 16) { c.ssigalgs[c.nssigalgs++] = (uint16_t) strtol(v, &v, 16); if (*v == ',') v++; } }
         else if (!strcmp(a[i], "forcehash")) { char *col = strchr(v, ':'); g_force_hash = atoi(v); g_force_side = (col && col[1] == 's') ? 1 : 0; }
         else if (!strcmp(a[i], "rewrite_sa")) { while (*v && nrw < 16) { rw[nrw++] = (uint16_t) strtol(v, &v, 16); if (*v == ',') v++; } }
+        else if (!strcmp(a[i], "ticket")) c.ticket = atoi(v);
+        else if (!strcmp(a[i], "offer")) c.fakeid = !strcmp(v, "fakeid");
+        else if (!strcmp(a[i], "pre")) pre = !strcmp(v, "auth") ? 2 : 1;
+        else if (!strcmp(a[i], "between")) between = !strcmp(v, "expire") ? 1 : !strcmp(v, "restart") ? 2 : !strcmp(v, "corrupt") ? 3 : !strcmp(v, "foreignkey") ? 4 : 0;
         else if (!strcmp(a[i], "kt")) g_kt_mode = !strcmp(v, "wrongkey");
         else if (!strcmp(a[i], "omit")) { char *col = strchr(v, ':'); if (col) { *col = 0; g_omit.side = col[1] == 's'; } g_omit.mode = !strcmp(v, "cv") ? 1 : !strcmp(v, "skesig") ? 2 : 0; }
         else if (!strcmp(a[i], "preset")) preset_empty = !strcmp(v, "emptycert");
@@ -431,6 +474,24 @@ static void do_live(char **a, int n)
         if (auth_new(&c2) == 0) { g_quiet = 1; flush_out(&g_c); g_quiet = 0; pump(1); }
         g_recording = 0; g_pop.mode = m; memcpy(g_acb, sv, sizeof sv);
     }
+    if (pre) {                  /* the earlier connection the client keeps its resumption material from */
+        acb_t sv[2]; memcpy(sv, g_acb, sizeof sv); acfg_t c0 = c; c0.cauth = (pre == 2); c0.cid = (pre == 2); c0.year = 0; c0.keep = 0; c0.fakeid = 0; c0.seed = c.seed + 500;
+        memset(g_acb, 0, sizeof g_acb); g_acb[1].mode = (pre == 2) ? 1 : 0;
+        int r0 = auth_new(&c0);
+        if (r0 == 0) { g_quiet = 1; flush_out(&g_c); g_quiet = 0; pump(1); }
+        snprintf(prebuf, sizeof prebuf, " pre=%d,%d,%d,%d", r0 == 0 && g_c.ssl ? matrixSslHandshakeIsComplete(g_c.ssl) : -1,
+                 r0 == 0 && g_s.ssl ? matrixSslHandshakeIsComplete(g_s.ssl) : -1, g_valcalls[1], g_signcalls[0]);
+        peer_free(&g_c); peer_free(&g_s);          /* both connections are closed: cache entries released, the client keeps g_saved_sid */
+        memcpy(g_acb, sv, sizeof sv); c.keep = 1;
+        if (between == 1) g_vtime += 3 * 86400;
+        if (between == 2) { matrixSslClose(); if (matrixSslOpen() < 0) { printf("new=-9"); return; } }
+        if (between == 3 && g_saved_sid) {
+            g_saved_sid->id[5] ^= 0x01;
+            if (g_saved_sid->sessionTicket && g_saved_sid->sessionTicketLen > 40) { g_saved_sid->sessionTicket[g_saved_sid->sessionTicketLen / 2] ^= 0x10; g_saved_sid->sessionTicket[g_saved_sid->sessionTicketLen - 1] ^= 0x01; }
+            for (psTls13Psk_t *k = g_saved_sid->psk; k; k = k->next) if (k->pskId && k->pskIdLen > 8) { k->pskId[k->pskIdLen / 2] ^= 0x10; k->pskId[k->pskIdLen - 1] ^= 0x01; }
+        }
+        if (between == 4) c.tkey = 1;
+    }
     int rc = auth_new(&c);
     printf("new=%d", rc);
     if (rc == 0) {
@@ -441,6 +502,7 @@ static void do_live(char **a, int n)
     }
     side_line("c", &g_c, 0); side_line("s", &g_s, 1);
     printf(" val=%d:%d sign=%d:%d v=%s;%s", g_valcalls[0], g_valcalls[1], g_signcalls[0], g_signcalls[1], g_verdict[0], g_verdict[1]);
+    if (pre || c.fakeid) printf("%s res=%d", prebuf, g_s.ssl ? (ACTV_VER(g_s.ssl, v_tls_1_3_any) ? (g_s.ssl->sec.tls13UsingPsk ? 1 : 0) : ((g_s.ssl->flags & SSL_FLAGS_RESUMED) ? 1 : 0)) : -1);
     if (g_force_hash) printf(" forced=%d", g_forced);
     if (g_omit.mode) printf(" omit=%d:%d", g_omit.hashskips, g_omit.dropped);
     memset(&g_omit, 0, sizeof g_omit);
@@ -479,7 +541,7 @@ static void do_verdict(char **a, int n)
 
 int main(void)
 {
-    if (matrixSslOpen() < 0) { printf("INITFAIL\n"); return 2; }
+    if (matrixSslOpen() < 0) { fputs("@ INITFAIL\n", stdout); return 2; }
     while (next_case()) {
         if (g_ntok >= 3 && !strcmp(g_tok[0], "altkeys")) {
             unsigned char *d; size_t l; int r1, r2;
@@ -491,7 +553,7 @@ int main(void)
         else if (g_ntok >= 1 && !strcmp(g_tok[0], "V")) do_verdict(g_tok + 1, g_ntok - 1);
         else if (g_ntok >= 1 && !strcmp(g_tok[0], "L")) do_live(g_tok + 1, g_ntok - 1);
         else printf("?");
-        printf("\n"); fflush(stdout);
+        fputs("@ ", stdout); fputs(g_out, stdout); fputc('\n', stdout); fflush(stdout); g_outl = 0; g_out[0] = 0;
     }
     return 0;
 }
